@@ -44,6 +44,33 @@ fn with_states(mut v: Vec<Box<dyn Oracle>>) -> Vec<Box<dyn Oracle>> {
     v
 }
 
+
+/// World B variant of the transport scenarios: real Client/Server, default windows, nonces near
+/// wrap-around in half of the runs, a silence timeout long enough not to interfere.
+fn b_transport(property: &'static str, scenario: &'static str, seed: u64, run: u64, thorough: bool, heal: bool, ideal: bool, flips: bool) -> Plan {
+    let mut r = Rng::keyed(&[seed, run, crate::rng::str_key(scenario)]);
+    let fault_until = r.range(5, if thorough { 40 } else { 20 }) * 1_000_000;
+    let sc = BScenario {
+        n_clients: r.range(1, 3) as usize,
+        packets: r.range(20, if thorough { 600 } else { 200 }),
+        horizon_us: if heal { fault_until + (900 + 128 * 80) * 1_000_000 } else { fault_until },
+        fault_until_us: fault_until,
+        heal,
+        allow_flips: flips,
+        near_wrap: run % 2 == 0,
+        // the silence timer (C10's business) must not end the connection during blackouts
+        active_timeout_ms: 1_800_000,
+        ideal,
+        byte_cap: if heal { 64 * 1448 } else { 0 },
+    };
+    let mut plan = world_b_general(property, scenario, seed, run, &sc);
+    if heal {
+        plan.params.insert("expect_live".into(), 1.0);
+        plan.params.insert("end_when_quiescent".into(), 1.0);
+    }
+    plan
+}
+
 // ------------------------------------------------------------------------------------------ C01
 
 fn c01_sc(r: &mut Rng, thorough: bool, near_wrap: bool, small: bool) -> AScenario {
@@ -91,6 +118,8 @@ fn c01_gen_b(seed: u64, run: u64, thorough: bool) -> Plan {
         near_wrap: run % 2 == 0,
         // a connection that legitimately timed out simply ends the run's transport checks
         active_timeout_ms: 20_000,
+        ideal: false,
+        byte_cap: 0,
     };
     world_b_general("C01", "b_mixed", seed, run, &sc)
 }
@@ -159,6 +188,9 @@ fn c02_gen(seed: u64, run: u64, thorough: bool) -> Plan {
     plan.params.insert("end_when_quiescent".into(), 1.0);
     plan
 }
+fn c02_gen_b(seed: u64, run: u64, thorough: bool) -> Plan {
+    b_transport("C02", "b_fault_then_fair", seed, run, thorough, true, false, true)
+}
 fn c02_oracles(plan: &Plan) -> Vec<Box<dyn Oracle>> {
     with_states(vec![Box::new(TransportOracle::new("C02", TransportClauses { reliable_not_skipped: true, reliable_live: true, ..Default::default() }, plan))])
 }
@@ -166,8 +198,10 @@ fn c02_oracles(plan: &Plan) -> Vec<Box<dyn Oracle>> {
 pub fn c02() -> CheckDef {
     CheckDef {
         property: "C02",
-        families: vec![Family { name: "a_fault_then_fair", world: "A", weight: 1, gen: c02_gen, oracles: c02_oracles, adversary: None, keep_workload: false, custom: None,
-            what: "finite fault prefix (loss/dup/reorder/flips/blackouts/ack- or sync-targeted loss, stalls) then a fair link (<= 200 ms, stepping <= 200 ms); safety on every delivery, liveness at quiescence or after T_live = 900 s + 128 s x 80 frames" }],
+        families: vec![Family { name: "a_fault_then_fair", world: "A", weight: 3, gen: c02_gen, oracles: c02_oracles, adversary: None, keep_workload: false, custom: None,
+            what: "finite fault prefix (loss/dup/reorder/flips/blackouts/ack- or sync-targeted loss, stalls) then a fair link (<= 200 ms, stepping <= 200 ms); safety on every delivery, liveness at quiescence or after T_live = 900 s + 128 s x 80 frames" },
+            Family { name: "b_fault_then_fair", world: "B", weight: 1, gen: c02_gen_b, oracles: c02_oracles, adversary: None, keep_workload: false, custom: None,
+                what: "the same through the public API: real Client/Server (1-3 clients, both directions), faults until the heal, then a fair link; at most 64 frames of payload per direction" }],
         panic_is_violation: no_panics,
         hang_is_violation: false,
         quick_runs: 1500,
@@ -498,6 +532,9 @@ fn c05_gen(seed: u64, run: u64, thorough: bool) -> Plan {
     plan.sort();
     plan
 }
+fn c05_gen_b(seed: u64, run: u64, thorough: bool) -> Plan {
+    b_transport("C05", "b_ideal", seed, run, thorough, true, true, false)
+}
 fn c05_oracles(plan: &Plan) -> Vec<Box<dyn Oracle>> {
     with_states(vec![Box::new(TransportOracle::new("C05", TransportClauses { ideal: true, ..Default::default() }, plan))])
 }
@@ -505,7 +542,9 @@ fn c05_oracles(plan: &Plan) -> Vec<Box<dyn Oracle>> {
 pub fn c05() -> CheckDef {
     CheckDef {
         property: "C05",
-        families: vec![Family { name: "a_ideal", world: "A", weight: 1, gen: c05_gen, oracles: c05_oracles, adversary: None, keep_workload: false, custom: None,
+        families: vec![Family { name: "b_ideal", world: "B", weight: 1, gen: c05_gen_b, oracles: c05_oracles, adversary: None, keep_workload: false, custom: None,
+            what: "the same through the public API: real Client/Server on a loss-free order-preserving link, 1-3 clients, both directions" },
+        Family { name: "a_ideal", world: "A", weight: 3, gen: c05_gen, oracles: c05_oracles, adversary: None, keep_workload: false, custom: None,
             what: "order-preserving loss-free link (fixed or varying latency 0.05 ms..3 s), both directions, bursts beyond the flush budget and both windows, arbitrary cadences and stalls, all initial ids; delivered sequence must equal submitted sequence minus sender-dropped TimeSensitive packets" }],
         panic_is_violation: no_panics,
         hang_is_violation: false,
@@ -536,6 +575,9 @@ fn c06_gen_sender(seed: u64, run: u64, thorough: bool) -> Plan {
         phases: r.range(1, 3),
     };
     world_a_general("C06", "a_sender_respects", seed, run, &sc, false)
+}
+fn c06_gen_b(seed: u64, run: u64, thorough: bool) -> Plan {
+    b_transport("C06", "b_sender_respects", seed, run, thorough, false, false, false)
 }
 fn c06_oracles_sender(_plan: &Plan) -> Vec<Box<dyn Oracle>> {
     with_states(vec![Box::new(SenderLimitOracle::new("C06"))])
@@ -616,6 +658,8 @@ pub fn c06() -> CheckDef {
         families: vec![
             Family { name: "a_sender_respects", world: "A", weight: 10, gen: c06_gen_sender, oracles: c06_oracles_sender, adversary: None, keep_workload: false, custom: None,
                 what: "genuine pairs, receive limits 1 byte..6 MB, windows 1..4096, all ack schedules and losses: packets taken from the send queue and not yet below the accepted window base stay within the advertised (fragment-rounded) allocation and 4096 packets; the genuine receiver never discards a packet for lack of memory" },
+            Family { name: "b_sender_respects", world: "B", weight: 4, gen: c06_gen_b, oracles: c06_oracles_sender, adversary: None, keep_workload: false, custom: None,
+                what: "real Client/Server with receive allocations 2 kB..4 MB: the limit each sender uses is the one its peer advertised in the handshake, and is respected" },
             Family { name: "a_hostile_stream", world: "A", weight: 10, gen: c06_gen_hostile_stream, oracles: c06_oracles_receiver, adversary: Some(c06_adv), keep_workload: false, custom: None,
                 what: "victim receiver (limit 1 byte..4 MB) against a hostile stream: fragment counts up to 65536, ids inside/outside the window, never-completing packets, inconsistent parent leads, any read cadence; heap bytes attributed to the victim (allocator measurement) stay within the rounded limit plus a constant bookkeeping budget" },
             Family { name: "a_ack_queue_flood", world: "A", weight: 1, gen: c06_gen_flood, oracles: c06_oracles_receiver, adversary: Some(c06_adv), keep_workload: false, custom: None,
@@ -623,8 +667,8 @@ pub fn c06() -> CheckDef {
         ],
         panic_is_violation: no_panics,
         hang_is_violation: false,
-        quick_runs: 2100,
-        thorough_runs: 42_000,
+        quick_runs: 2500,
+        thorough_runs: 50_000,
         rule: "one case = one simulated run; distinct = distinct run digest; non-trivial = at least 10 limit checks (sender half) or 10 heap measurements after hostile traffic (receiver half)",
         real_code: REAL_A,
         stubs: STUB_A,
@@ -665,6 +709,9 @@ fn c12_gen(seed: u64, run: u64, thorough: bool) -> Plan {
     plan.sort();
     plan
 }
+fn c12_gen_b(seed: u64, run: u64, thorough: bool) -> Plan {
+    b_transport("C12", "b_modes", seed, run, thorough, false, false, false)
+}
 fn c12_oracles(_plan: &Plan) -> Vec<Box<dyn Oracle>> {
     with_states(vec![Box::new(ModeOracle::new("C12"))])
 }
@@ -672,7 +719,9 @@ fn c12_oracles(_plan: &Plan) -> Vec<Box<dyn Oracle>> {
 pub fn c12() -> CheckDef {
     CheckDef {
         property: "C12",
-        families: vec![Family { name: "a_modes", world: "A", weight: 1, gen: c12_gen, oracles: c12_oracles, adversary: None, keep_workload: false, custom: None,
+        families: vec![Family { name: "b_modes", world: "B", weight: 1, gen: c12_gen_b, oracles: c12_oracles, adversary: None, keep_workload: false, custom: None,
+            what: "the same wire-log oracle on real Client/Server traffic (default windows, several clients per server)" },
+        Family { name: "a_modes", world: "A", weight: 3, gen: c12_gen, oracles: c12_oracles, adversary: None, keep_workload: false, custom: None,
             what: "mixed modes, packets cut across flushes, acks arriving between fragments, losses and duplicates; every (packet id, fragment id) occurrence on the wire is attributed to its submission: Unreliable/TimeSensitive at most once, TimeSensitive begun by the first step() after send(), nothing re-emitted after its acknowledgement was processed or after the receiver moved past the packet" }],
         panic_is_violation: no_panics,
         hang_is_violation: false,
@@ -721,6 +770,9 @@ fn c13_gen(seed: u64, run: u64, thorough: bool) -> Plan {
     plan.sort();
     plan
 }
+fn c13_gen_b(seed: u64, run: u64, thorough: bool) -> Plan {
+    b_transport("C13", "b_rate", seed, run, thorough, false, false, false)
+}
 fn c13_oracles(_plan: &Plan) -> Vec<Box<dyn Oracle>> {
     with_states(vec![Box::new(RateOracle::new("C13"))])
 }
@@ -728,7 +780,9 @@ fn c13_oracles(_plan: &Plan) -> Vec<Box<dyn Oracle>> {
 pub fn c13() -> CheckDef {
     CheckDef {
         property: "C13",
-        families: vec![Family { name: "a_rate", world: "A", weight: 1, gen: c13_gen, oracles: c13_oracles, adversary: None, keep_workload: false, custom: None,
+        families: vec![Family { name: "b_rate", world: "B", weight: 1, gen: c13_gen_b, oracles: c13_oracles, adversary: None, keep_workload: false, custom: None,
+            what: "real Client/Server: ceiling = min(local max_send_rate, peer max_receive_rate) from the two endpoint configurations" },
+        Family { name: "a_rate", world: "A", weight: 3, gen: c13_gen, oracles: c13_oracles, adversary: None, keep_workload: false, custom: None,
             what: "ceilings 1472 B/s..50 MB/s on either side, backlogs of hundreds to thousands of packets, cadences from several flushes per step to seconds between steps, pauses, loss and feedback patterns; every window of data/sync/ack frames is checked against ceiling x (duration + largest RTT estimate held) + 1472" }],
         panic_is_violation: no_panics,
         hang_is_violation: false,
@@ -1246,6 +1300,20 @@ fn c11_gen_recover(seed: u64, run: u64, thorough: bool) -> Plan {
 fn c11_gen_rate(seed: u64, run: u64, thorough: bool) -> Plan {
     c11_plan("a_rate_recovers", seed, run, thorough, true)
 }
+fn c11_gen_b(seed: u64, run: u64, thorough: bool) -> Plan {
+    let mut plan = b_transport("C11", "b_blackout_recover", seed, run, thorough, true, false, false);
+    // a blackout in the middle of the fault phase, placed after the handshake
+    let mut r = Rng::keyed(&[seed, run, 0xb11]);
+    let heal = plan.timeline.iter().find(|t| matches!(&t.op, Op::Mark { name } if name == "heal")).map(|t| t.t_us).unwrap_or(10_000_000);
+    let t0 = r.range(1_500_000, heal.saturating_sub(1_000_000).max(1_500_001));
+    let mut b = clean_rule(10_000);
+    b.blackout = true;
+    let dir = r.below(3);
+    let (from, to) = match dir { 0 => (None, None), 1 => (Some(0usize), None), _ => (None, Some(0usize)) };
+    plan.push(t0, 2, Op::Link { from, to, rule: b });
+    plan.sort();
+    plan
+}
 fn c11_oracles(plan: &Plan) -> Vec<Box<dyn Oracle>> {
     with_states(vec![
         Box::new(RecoveryOracle::new("C11")),
@@ -1262,6 +1330,8 @@ pub fn c11() -> CheckDef {
         families: vec![
             Family { name: "a_blackout_recover", world: "A", weight: 4, gen: c11_gen_recover, oracles: c11_oracles, adversary: None, keep_workload: false, custom: None,
                 what: "warm-up traffic, then a blackout of 0.1..19 s (40 s thorough) in one or both directions, or the loss of all acknowledgements, or 50 % loss, or a lasting x10 / /10 change of the round-trip time; small and default windows, exhausted allocation; after the last fault probe packets of every mode (TimeSensitive ones every second, flushed at once) must be delivered, everything Reliable delivered and the senders drained within T_live" },
+            Family { name: "b_blackout_recover", world: "B", weight: 1, gen: c11_gen_b, oracles: c11_oracles, adversary: None, keep_workload: false, custom: None,
+                what: "through the public API with active_timeout_ms = 30 min (so that the silence timer, which is C10's business, cannot end the connection): faults and a blackout until the heal, then everything Reliable must arrive and the senders drain" },
             Family { name: "a_rate_recovers", world: "A", weight: 1, gen: c11_gen_rate, oracles: c11_oracles_rate, adversary: None, keep_workload: false, custom: None,
                 what: "same faults with a standing backlog; after 600 s on a clean link the allowed rate must have left the s/64 floor (>= min(ceiling, 10 x floor))" },
         ],
@@ -1369,6 +1439,9 @@ fn c20_gen(seed: u64, run: u64, thorough: bool) -> Plan {
     }
     plan
 }
+fn c20_gen_b(seed: u64, run: u64, thorough: bool) -> Plan {
+    b_transport("C20", "b_buffer", seed, run, thorough, false, false, false)
+}
 fn c20_oracles(plan: &Plan) -> Vec<Box<dyn Oracle>> {
     with_states(vec![Box::new(TransportOracle::new("C20", TransportClauses { buffer_model: true, ..Default::default() }, plan))])
 }
@@ -1376,7 +1449,9 @@ fn c20_oracles(plan: &Plan) -> Vec<Box<dyn Oracle>> {
 pub fn c20() -> CheckDef {
     CheckDef {
         property: "C20",
-        families: vec![Family { name: "a_buffer", world: "A", weight: 1, gen: c20_gen, oracles: c20_oracles, adversary: None, keep_workload: false, custom: None,
+        families: vec![Family { name: "b_buffer", world: "B", weight: 1, gen: c20_gen_b, oracles: c20_oracles, adversary: None, keep_workload: false, custom: None,
+            what: "the same model against the send_buffer_size() of real Clients and RemoteClients (packets queued before Connect included)" },
+        Family { name: "a_buffer", world: "A", weight: 3, gen: c20_gen, oracles: c20_oracles, adversary: None, keep_workload: false, custom: None,
             what: "mixed traffic with many TimeSensitive packets, window and allocation stalls, ack loss; after every call send_buffer_size() must equal accepted - acknowledged - discarded" }],
         panic_is_violation: overflow_in_sender,
         hang_is_violation: false,
